@@ -794,3 +794,104 @@ func TestC08CasterMisuse(t *testing.T) {
 		})
 	})
 }
+
+// ---------------------------------------------------------------------------------------------
+// buffered channels (where the contract allows: capacity >= registered receivers, so Send cannot block):
+// sequential rounds of register / deregister-before-send / racing Sends / receive. Every registration left
+// when the Sends start is good for exactly one value of exactly one Send; the returns of the racing Sends add
+// up to the number of registrations; after the Sends the count is zero and the channel holds exactly the
+// undelivered copies.
+
+func TestC08CasterBuffered(t *testing.T) {
+	st := vkit.For("c08_caster_buffered")
+	rapid.Check(t, func(t *rapid.T) {
+		capacity := rapid.IntRange(1, 8).Draw(t, "cap")
+		rounds := rapid.IntRange(1, 4).Draw(t, "rounds")
+		var trace []string
+		trace = append(trace, fmt.Sprintf("cap=%d", capacity))
+		vkit.CaseStart(func() string { return strings.Join(trace, " ; ") })
+		rapid.SyncTest(t, func(t *rapid.T) {
+			ch := make(chan int, capacity)
+			x := bigbuff.NewChanCaster(ch)
+			tok := 0
+			racing := false
+			for r := 0; r < rounds; r++ {
+				reg := rapid.IntRange(0, capacity).Draw(t, "register")
+				count := 0
+				for left := reg; left > 0; {
+					d := rapid.IntRange(1, left).Draw(t, "delta")
+					if got := x.Add(d); got != count+d {
+						vkit.Fail(t, "C08/add-count", "Add(%d) returned %d, expected %d\ncase: %v", d, got, count+d, trace)
+					}
+					count += d
+					left -= d
+				}
+				dereg := rapid.IntRange(0, count).Draw(t, "deregBefore")
+				for i := 0; i < dereg; i++ {
+					if got := x.Add(-1); got != count-1 {
+						vkit.Fail(t, "C08/add-count", "Add(-1) returned %d, expected %d\ncase: %v", got, count-1, trace)
+					}
+					count--
+				}
+				nSenders := rapid.IntRange(1, 3).Draw(t, "senders")
+				if nSenders > 1 {
+					racing = true
+				}
+				trace = append(trace, fmt.Sprintf("round%d: registered=%d senders=%d", r, count, nSenders))
+				type sres struct{ tok, n int }
+				results := make(chan sres, nSenders)
+				var ops []*vkit.Op
+				for s := 0; s < nSenders; s++ {
+					tok++
+					v := tok
+					ops = append(ops, vkit.Launch("Send", func() any { n := x.Send(v); results <- sres{v, n}; return n }))
+				}
+				synctest.Wait()
+				sum := 0
+				returned := map[int]int{}
+				for _, op := range ops {
+					if !op.Finished() {
+						vkit.Fail(t, "C08/buffered-send-blocked", "Send blocked although the channel's capacity (%d) covers every registered receiver (%d)\ncase: %v", capacity, count, trace)
+					}
+					if op.Panic != nil {
+						vkit.Fail(t, "C08/send-panic", "Send panicked: %v\ncase: %v", op.Panic, trace)
+					}
+				}
+				for i := 0; i < nSenders; i++ {
+					r := <-results
+					returned[r.tok] = r.n
+					sum += r.n
+				}
+				if sum != count {
+					vkit.Fail(t, "C08/send-count", "racing Sends returned %v, together %d, but %d receivers were registered when they started\ncase: %v", returned, sum, count, trace)
+				}
+				if n := x.Add(0); n != 0 {
+					vkit.Fail(t, "C08/count-after-send", "Add(0)=%d after the Sends returned\ncase: %v", n, trace)
+				}
+				if len(ch) != count {
+					vkit.Fail(t, "C08/buffered-copies", "the channel holds %d copies, %d receivers were registered\ncase: %v", len(ch), count, trace)
+				}
+				got := map[int]int{}
+				for i := 0; i < count; i++ {
+					select {
+					case v := <-ch:
+						got[v]++
+					default:
+						vkit.Fail(t, "C08/buffered-copies", "copy %d of %d missing from the channel\ncase: %v", i+1, count, trace)
+					}
+				}
+				for tk, n := range returned {
+					if got[tk] != n {
+						vkit.Fail(t, "C08/send-count", "Send(%d) returned %d but %d copies of it were delivered\ncase: %v", tk, n, got[tk], trace)
+					}
+				}
+				for tk := range got {
+					if _, ok := returned[tk]; !ok {
+						vkit.Fail(t, "C08/invented", "value %d was delivered but not sent in this round\ncase: %v", tk, trace)
+					}
+				}
+			}
+			st.Case(trace, racing, fmt.Sprintf("cap:%d", capacity))
+		})
+	})
+}
